@@ -249,8 +249,18 @@ func (c *evalCtx) call(e *Expr) (tval, error) {
 		}
 		byKey := map[string][]footprint{}
 		var order []string
+		// at function entry a parameter name denotes the argument (even if the parameter is an addressable variable)
+		entryNames := map[string]tval{}
+		for k, v := range c.names {
+			entryNames[k] = v
+		}
+		for _, p := range fr.fn.Params {
+			if t, ok := fr.regs[p]; ok && !c.bound[p.Name()] {
+				entryNames[p.Name()] = tval{t: t, ty: p.Type()}
+			}
+		}
 		for _, a := range e.Args {
-			fps, everything, err := fr.evalModifies([]string{a.String()}, c.names, c.old)
+			fps, everything, err := fr.evalModifies([]string{a.String()}, entryNames, c.old)
 			if err != nil {
 				return tval{}, err
 			}
